@@ -178,3 +178,52 @@ Example C17_bulk_nonvacuous :
   | inl _ => []
   end = [(4, 448, 128); (4, 448, 128); (4, 448, 128)].
 Proof. vm_compute. reflexivity. Qed.
+
+(* ---------------------------------------------------------------- what the agent reads *)
+(* _prepare_pilot writes pilot i's agent configuration to a local file `name i`;
+   _start_pilot_bulk stages the files to the sandboxes only after ALL pilots of
+   the bulk are prepared (`received` reads the file store after the whole loop).
+   For ANY naming under which no two pilots of the bulk share a file, for a bulk
+   of ANY length: the sandbox of pilot i receives the configuration prepared for
+   pilot i, whatever the other pilots of the bulk are. *)
+Theorem staged_cfg_is_own :
+  forall (name : nat -> nat) (ss : list sized),
+    (forall i j, (i < List.length ss)%nat -> (j < List.length ss)%nat -> name i = name j -> i = j) ->
+    forall i s, nth_error ss i = Some s -> received name ss i = Some (told_of i s).
+Proof. exact staged_cfg_is_own_l. Qed.
+Print Assumptions staged_cfg_is_own.
+
+(* the hypothesis is needed: with ONE file name for every pilot (e.g. a name made
+   of session and agent uid) the first pilot of a bulk of two receives the
+   configuration of the second *)
+Example shared_file_name_refuted :
+  exists ss, received (fun _ => 0%nat) ss 0 = option_map (told_of 1) (nth_error ss 1)
+             /\ received (fun _ => 0%nat) ss 0 <> option_map (told_of 0) (nth_error ss 0).
+Proof.
+  exists [mk_sized {| n_cpn := 8; n_gpn := 1; n_smt := 1; n_bc := 0; n_bg := 0 |} 4 0 0 0;
+          mk_sized {| n_cpn := 8; n_gpn := 1; n_smt := 1; n_bc := 0; n_bg := 0 |} 2 10 1 0].
+  split; [vm_compute; reflexivity|vm_compute; discriminate].
+Qed.
+
+(* the model of _start_pilot_bulk (tempfile.mkstemp: a fresh file per pilot), any
+   tables, any bulk: what pilot i's job requests is what `launch` gives that
+   request ALONE, and what arrives in its sandbox is the agent configuration
+   built from exactly those figures, for pilot i and its sandbox *)
+Theorem bulk_agent_receives_own :
+  forall (Tb : tables) site rname schema (qs : list request) rs (i : nat) (s : sized) (t : option told),
+    launch_bulk_staged Tb site rname schema qs = inr rs ->
+    nth_error rs i = Some (s, t) ->
+    exists q, nth_error qs i = Some q /\ launch Tb site rname schema q = inr s /\
+              t = Some (told_of i s).
+Proof. exact bulk_agent_receives_own_l. Qed.
+Print Assumptions bulk_agent_receives_own.
+
+(* ... so the two oracle clauses the harness evaluates on the agent_0.cfg found in
+   every sandbox (staged_cfg_is_own, agent_told_what_job_requests) hold of the model *)
+Theorem agent_told_what_job_requests :
+  forall (Tb : tables) site rname schema (qs : list request) rs (i : nat) (s : sized) (t : option told),
+    launch_bulk_staged Tb site rname schema qs = inr rs ->
+    nth_error rs i = Some (s, t) ->
+    ok_staged_own i t = true /\ ok_told_job s t = true.
+Proof. exact bulk_agent_told_job_l. Qed.
+Print Assumptions agent_told_what_job_requests.
